@@ -1,5 +1,6 @@
 #!/bin/bash
 # usage: tools/seedbatch.sh C02 C04 ...   evaluates seed a and b of each property sequentially
+# SEEDPORT (default 14000) is the base port of the suite run; SEEDEVAL_FLAGS are passed on (e.g. --own-first)
 # SEEDROOT (default /tmp/seed) holds the worktrees wt-<ID>; SEEDTAG (default empty) is put in front of the variant in the name
 here=$(cd "$(dirname "$0")" && pwd)
 root=${SEEDROOT:-/tmp/seed}
@@ -8,7 +9,7 @@ for id in "$@"; do
   for v in a b; do
     if [ -d $root/wt-$id/seed/$v ] || [ -d $root/out/$id/$v ]; then
       echo "=== $id-$tag$v $(date +%H:%M:%S)"
-      python3 "$here/seedeval.py" $root/wt-$id $v $id 14000 --name $id-$tag$v 2>&1 | tail -25
+      python3 "$here/seedeval.py" $root/wt-$id $v $id ${SEEDPORT:-14000} --name $id-$tag$v $SEEDEVAL_FLAGS 2>&1 | tail -25
     fi
   done
 done
